@@ -261,6 +261,43 @@ func c04ReadSite(file, callee, builder string) c04Site {
 			}
 		}
 	}
+	// the value whose Rules/Fallback are normalised must not be written, nor handed to anything, anywhere in
+	// the function BEFORE the normalising call (a rewrite of the rule list there changes first match)
+	if ok0 {
+		x := c04ExprStr(a0.X)
+		touches := func(e ast.Expr) bool {
+			if u, ok := e.(*ast.UnaryExpr); ok {
+				e = u.X
+			}
+			s := c04ExprStr(e)
+			return s == x || strings.HasPrefix(s, x+".")
+		}
+		ast.Inspect(body, func(n ast.Node) bool {
+			if n == nil {
+				return true
+			}
+			if n.Pos() >= theCall.Pos() {
+				return false
+			}
+			switch v := n.(type) {
+			case *ast.AssignStmt:
+				for _, l := range v.Lhs {
+					if touches(l) {
+						site.glue = "rule-list-written-before-normalising"
+					}
+				}
+			case *ast.CallExpr:
+				if v.End() <= theCall.Pos() {
+					for _, a := range v.Args {
+						if touches(a) {
+							site.glue = "rule-list-handed-to-" + c04CallName(v) + "-before-normalising"
+						}
+					}
+				}
+			}
+			return true
+		})
+	}
 	if builder == "" || site.glue != "ok" {
 		return site
 	}
@@ -884,6 +921,12 @@ func c04WriteGeo(dir string) error {
 		{CountryCode: "ATTR", Domain: []*geodata.Domain{dom(geodata.Domain_RootDomain, "b.com", "x"), dom(geodata.Domain_Full, "c.com")}},
 		{CountryCode: "DUP", Domain: []*geodata.Domain{dom(geodata.Domain_RootDomain, "a.com"), dom(geodata.Domain_RootDomain, "a.com"), dom(geodata.Domain_Plain, "goo")}},
 		{CountryCode: "BOTH", Domain: []*geodata.Domain{dom(geodata.Domain_Full, "c.com")}},
+		// attributes in a prefix relation: @ad, @ads, @ads-cn must each select exactly their own entries
+		{CountryCode: "ADS", Domain: []*geodata.Domain{dom(geodata.Domain_Full, "a.com", "ad"), dom(geodata.Domain_RootDomain, "b.com", "ads"),
+			dom(geodata.Domain_Plain, "goo", "ads-cn"), dom(geodata.Domain_Full, "x.org", "ads", "ad")}},
+		// a code that has a later code as a proper prefix
+		{CountryCode: "PRE2", Domain: []*geodata.Domain{dom(geodata.Domain_Full, "c.com")}},
+		{CountryCode: "PRE", Domain: []*geodata.Domain{dom(geodata.Domain_RootDomain, "x.org")}},
 		// the same code twice in one file: the first entry wins
 		{CountryCode: "TWICE", Domain: []*geodata.Domain{dom(geodata.Domain_Full, "a.com")}},
 		{CountryCode: "TWICE", Domain: []*geodata.Domain{dom(geodata.Domain_Full, "x.org")}},
@@ -924,7 +967,12 @@ func c04WriteGeo(dir string) error {
 		{CountryCode: "P1", Cidr: []*geodata.CIDR{cidr("1.1.1.1/32"), cidr("::1/128")}},
 		{CountryCode: "V4", Cidr: []*geodata.CIDR{cidr("8.8.8.0/24")}}, // same code as in geoip.dat, other content
 	}}
-	for name, msg := range map[string]proto.Message{"geosite.dat": site, "extra.dat": extra, "geoip.dat": ip, "extraip.dat": extraip} {
+	// a file whose name differs from extra.dat in letter case only, with different content for the same codes
+	extraUpper := &geodata.GeoSiteList{Entry: []*geodata.GeoSite{
+		{CountryCode: "MIX", Domain: []*geodata.Domain{dom(geodata.Domain_Full, "goog.le")}},
+		{CountryCode: "E1", Domain: []*geodata.Domain{dom(geodata.Domain_RootDomain, "b.com")}},
+	}}
+	for name, msg := range map[string]proto.Message{"geosite.dat": site, "extra.dat": extra, "Extra.dat": extraUpper, "geoip.dat": ip, "extraip.dat": extraip} {
 		c04Remember(strings.TrimSuffix(name, ".dat"), msg)
 		b, err := proto.Marshal(msg)
 		if err != nil {
@@ -1036,8 +1084,8 @@ var (
 	c04Full    = []string{"a.com", "www.a.com", "x.org", "b.a.com", "c.com"}
 	c04Keyword = []string{"goo", "a.c", "xyz", "org"}
 	c04Regex   = []string{"^a\\..*$", "^.*\\.org$", "oo", "^x\\..*$"}
-	c04Sites   = []string{"one", "mix", "empty", "attr", "attr@x", "attr@nosuch", "mix@x", "mix@y", "dup", "ONE", "both", "twice", "mix"}
-	c04ExtSite = []string{"extra:e1", "extra:e0", "extra.dat:E1", "extra:mix", "extra:one", "extra:empty", "extra:MIX"}
+	c04Sites   = []string{"one", "mix", "empty", "attr", "attr@x", "attr@nosuch", "mix@x", "mix@y", "dup", "ONE", "both", "twice", "mix", "ads@ad", "ads@ads", "ads@ads-cn", "ads@AD", "ads", "pre", "pre2", "PRE"}
+	c04ExtSite = []string{"extra:e1", "extra:e0", "extra.dat:E1", "extra:mix", "extra:one", "extra:empty", "extra:MIX", "Extra:mix", "Extra:e1", "Extra.dat:MIX", "extra:e1", "extra:mix"}
 	c04Cidrs   = []string{"10.0.0.0/8", "10.1.0.0/16", "1.1.1.1", "1.1.1.0/24", "192.168.0.0/16", "2001:db8::/32", "::1", "fd00::/8", "0.0.0.0/0", "a:b::c", "b::c"}
 	c04GeoIps  = []string{"v4", "v6", "mixip", "emptyip", "V4", "both"}
 	c04ExtIp   = []string{"extraip:p1", "extraip:v4", "extraip:V4"}
@@ -1062,6 +1110,9 @@ func c04GenParam(r *VRand, kind, name string) *c04Param {
 	if r.Chance(0.012) { // configuration-error classes of the dat stage / the builders (whole program fails)
 		switch r.Intn(6) {
 		case 0:
+			if r.Bool() {
+				return &c04Param{Key: "ext", Val: "nosuchfile:one"} // a file that does not exist: must be an error, not another file's list
+			}
 			return &c04Param{Key: "ext", Val: "nocolon"} // ext without ':code'
 		case 1:
 			if name != "domain" && name != "qname" && name != "dip" && name != "ip" {
@@ -1660,9 +1711,9 @@ func (e *c04Env) runProgram(o *c04Out, r *VRand, kind, tag string, rules []*c04R
 	}
 	var fbw strings.Builder
 	c04SerFunc(&fbw, &c04Func{Name: fb})
-	op := fmt.Sprintf("P %s %s %s G %d %s L %d %s FB %s FBW %s A %d %s GN 0 %s", backend, cat, alias,
+	op := fmt.Sprintf("P %s %s %s G %d %s L %d %s FB %s FBW %s MX %d A %d %s GN 0 %s", backend, cat, alias,
 		len(geoToks), strings.Join(geoToks, " "), len(labelToks), strings.Join(labelToks, " "),
-		strings.TrimPrefix(fbLabel, "F "), fbw.String(), len(atoms), strings.Join(atomToks, " "), c04SerProg(written))
+		strings.TrimPrefix(fbLabel, "F "), fbw.String(), consts.MaxMatchSetLen, len(atoms), strings.Join(atomToks, " "), c04SerProg(written))
 	op = strings.Join(strings.Fields(op), " ")
 	d.Text = c04Text(written)
 	o.emit(op, "opt="+opt+" split="+split+" fb="+c04Dec(fbLabel, false), d)
